@@ -32,7 +32,32 @@ _SRV_ASSUME = [
     'Python semantics of the encoded subset (DESIGN 2.2.7); single-threaded execution; log() dropped',
 ]
 
+K1_C05 = ['normalize', 'timerange', 'Model.memoize', 'Model.equation', 'SdSimulation.__simulate']
+
 PROPS = {
+    'C05': dict(
+        mods=['contracts.c05_grid'], k1=K1_C05, level='proof', engines=['contracts.c05_extra'],
+        harness='verif/native/c05_harness.py', harness_budget=(20, 120), always_harness=False,
+        explanation='float-agnostic contracts (round(x,p) uninterpreted with idempotence; canonical label = fixed point of round at the grid precision): '
+                    'normalize returns a canonical label; timerange records only the start or canonical labels, consecutive ones related by the '
+                    'successor function next_grid, all within the range and nothing missing at the end; Model.memoize stores and returns under the '
+                    'normalised key and computes a key once; SdSimulation.__simulate writes exactly one entry per label of timerange(start, stop, dt); '
+                    'the session clock advances by the same next_grid (structural obligation); real-arithmetic lemmas: every argument within dt/2 '
+                    'of a grid point is normalised to that grid point',
+        assumptions=['encoding F: float +,-,*,/ interpreted over the reals, round(x,p) uninterpreted with round(round(x,p),p) == round(x,p); round(x) an integer within 1/2 of x',
+                     'assumption used by timerange / __simulate: the successor label is above the current one (next_grid(i) > i); termination not proved',
+                     'scale(x) contract assumed (bounded lattice check only); Python semantics of the subset (DESIGN 2.2.7)'],
+        not_decided=['not decided: IEEE-754 rounding itself (a full error-bound proof of timerange was judged too expensive, DESIGN 2.2.6)',
+                     'not decided deductively: Element.plot (pandas comprehension) -- covered by the native harness only']),
+    'C01': dict(
+        mods=['contracts.c05_grid'], k1=['Model.memoize', 'Model.equation'], level='proof', engines=['contracts.c01_euler'],
+        harness='verif/native/c01_harness.py', harness_budget=(20, 120),
+        explanation='K2 generator contracts: the text built by Stock/Flow.build_function_string and by the term() of every operator and built-in '
+                    '(step, pulse, delay, lookup, dt/starttime/stoptime, min/max/abs/..., If/And/Or/Not, arithmetic) denotes the Euler spec expression of '
+                    'the element with every operand read at the specified time; Smooth/Trend constructors build average\' = (input-average)/T as a biflow '
+                    'into a stock; K1: Model.memoize is compute-once under the normalised key. Meta-lemma (paper): Element.__call__(t) == V(e,t)',
+        assumptions=['meta-lemma on paper (induction over (grid index, acyclic dependency order)); numpy / interp1d trusted; Model._lookup (numpy) assumed: clamped linear interpolation'],
+        not_decided=['not decided: stochastic built-ins; arrayed elements (C10); float rounding of dt*flow (spec and code use the same expression tree)']),
     'C02': dict(
         mods=[], k1=[], level='proof', engines=['contracts.c02_grouping'],
         harness='verif/native/c02_harness.py', harness_budget=(15, 90),
